@@ -85,6 +85,10 @@ func ZZGenNode(depth int, mode int, defModes []int) *ZZNode {
 			vn.Assume(n.Sel != zzLabel)
 		}
 	}
+	if vn.Param("MENU", 0) == 1 {
+		// binary menu: 1, name, A * B, A -* B (deep left/right nestings at an affordable cost)
+		vn.Assume(n.Sel <= zzRecv)
+	}
 	if k > 0 {
 		n.Ref = vn.Int(0, k-1)
 		// a reference carries the mode of the definition it names (well-formed input)
